@@ -73,144 +73,186 @@ def check_case(ir):
     import cdd.argparse_function.emit, cdd.class_.emit, cdd.function.emit, cdd.pydantic.emit
     from cdd.shared.source_transformer import to_code
 
-    items, nexec = [], 0
+    items, nexec = [], [0]
     base_ns = {}
     exec(PRELUDE, base_ns)
+
+    def emit(em, desc, **kw):
+        with contextlib.redirect_stderr(io.StringIO()):
+            return to_code(em(desc, **kw))
+
+    def obs_class(src, fmt, tag):
+        tree = ast.parse(src)
+        if ast.dump(ast.parse(ast.unparse(tree))) != ast.dump(tree):
+            items.append(("C04/%s/unparse-reparse" % tag, {"source": src[:200]}))
+        src_x = src.replace("(BaseModel)", "(object)") if fmt == "pydantic" else src   # pydantic-shaped class; BaseModel itself is third-party
+        ns = dict(base_ns)
+        try:
+            exec(compile(src_x, "<emitted %s>" % fmt, "exec"), ns)
+            nexec[0] += 1
+        except Exception as e:  # noqa
+            items.append(("C04/%s/does-not-run/%s" % (tag, type(e).__name__), {"error": str(e)[:100], "source": src[:300]}))
+            return
+        cls = ns.get("Thing") or next((v for k, v in ns.items() if inspect.isclass(v) and v.__module__ == "builtins" and k not in base_ns), None)
+        if cls is None:
+            items.append(("C04/%s/class-not-defined" % tag, {"source": src[:200]}))
+            return
+        anns = getattr(cls, "__annotations__", {})
+        for name, p in ir["params"].items():
+            want = described_default(p)
+            if want is T._ABSENT:
+                if hasattr(cls, name):
+                    got = getattr(cls, name)
+                    items.append(("C04/%s/attr-default-invented/%s->%s" % (tag, typ_head(p["typ"]), T.kind_of_default(got)),
+                                  {"param": name, "typ": p["typ"], "got": repr(got)}))
+            else:
+                if not hasattr(cls, name):
+                    items.append(("C04/%s/attr-default-missing/%s" % (tag, T.kind_of_default(p["default"])),
+                                  {"param": name, "typ": p["typ"], "default": repr(want)}))
+                elif getattr(cls, name) != want or type(getattr(cls, name)) != type(want):
+                    items.append(("C04/%s/attr-default-differs/%s->%s" % (tag, T.kind_of_default(p["default"]),
+                                                                          T.kind_of_default(getattr(cls, name))),
+                                  {"param": name, "typ": p["typ"], "default": repr(want), "got": repr(getattr(cls, name))}))
+            if name in anns:
+                if eval_typ(p["typ"], dict(base_ns)) != anns[name]:
+                    items.append(("C04/%s/annotation-differs/%s" % (tag, typ_head(p["typ"])),
+                                  {"param": name, "typ": p["typ"], "got": repr(anns[name])}))
+            else:
+                items.append(("C04/%s/annotation-missing/%s" % (tag, typ_head(p["typ"])), {"param": name, "typ": p["typ"]}))
+
+    def obs_function(src, tag, kwonly):
+        try:
+            ns = dict(base_ns)
+            exec(compile(src, "<emitted function>", "exec"), ns)
+            nexec[0] += 1
+        except Exception as e:  # noqa
+            items.append(("C04/%s/does-not-run/%s" % (tag, type(e).__name__), {"error": str(e)[:100]}))
+            return
+        sig = inspect.signature(ns["thing"])
+        got = [(k, v.default) for k, v in sig.parameters.items()]
+        want = [(k, (None if described_default(p) is T._ABSENT else described_default(p))) for k, p in ir["params"].items()
+                if not k.endswith("kwargs")]
+        if [g[0] for g in got] != [w[0] for w in want]:
+            items.append(("C04/%s/signature-names" % tag, {"got": [g[0] for g in got], "want": [w[0] for w in want]}))
+        else:
+            for (k, g), (_k, w_) in zip(got, want):
+                if g != w_ or type(g) != type(w_):
+                    items.append(("C04/%s/signature-default/%s->%s" % (tag, T.kind_of_default(w_), T.kind_of_default(g)),
+                                  {"param": k, "want": repr(w_), "got": repr(g)}))
+        kinds = {v.kind for v in sig.parameters.values()}
+        if kwonly and kinds - {inspect.Parameter.KEYWORD_ONLY}:
+            items.append(("C04/%s/not-keyword-only" % tag, {"kinds": [str(k) for k in kinds]}))
+
+    def obs_argparse(src, tag, edd):
+        try:
+            ns = dict(base_ns)
+            exec(compile(src, "<emitted argparse>", "exec"), ns)
+            ap = argparse.ArgumentParser(prog="x")
+            ns["set_cli_args"](ap)
+            nexec[0] += 1
+        except BaseException as e:  # noqa
+            items.append(("C04/%s/does-not-run/%s" % (tag, type(e).__name__), {"error": str(e)[:100]}))
+            return
+        acts = {a.dest: a for a in ap._actions if a.dest != "help"}
+        if sorted(acts) != sorted(ir["params"]):
+            items.append(("C04/%s/options-differ" % tag, {"got": sorted(acts), "want": sorted(ir["params"])}))
+            return
+        all_optional_or_defaultless = True
+        for name, p in ir["params"].items():
+            a = acts[name]
+            th = typ_head(p["typ"])
+            inner = p["typ"][9:-1] if p["typ"].startswith("Optional[") else p["typ"]
+            if inner.startswith("Literal["):
+                members = list(ast.literal_eval("(" + inner[len("Literal["):-1] + ",)"))
+                if a.choices is None or list(a.choices) != members:
+                    items.append(("C04/%s/choices" % tag, {"param": name, "typ": p["typ"], "got": repr(a.choices)}))
+            want_d = described_default(p)
+            want_d = None if want_d is T._ABSENT else want_d
+            if a.default != want_d or type(a.default) != type(want_d):
+                items.append(("C04/%s/default/%s->%s" % (tag, T.kind_of_default(want_d), T.kind_of_default(a.default)),
+                              {"param": name, "typ": p["typ"], "want": repr(want_d), "got": repr(a.default)}))
+            conv = {"int": int, "float": float, "bool": bool, "str": None}.get(inner, "?")
+            if conv != "?" and a.type is not conv and not (conv is None and a.type is str):
+                items.append(("C04/%s/type/%s" % (tag, th), {"param": name, "typ": p["typ"], "got": repr(a.type)}))
+            if (a.help or "") and T.norm_doc(a.help, edd) != T.norm_doc(p.get("doc"), edd):
+                items.append(("C04/%s/help" % tag, {"param": name, "want": p.get("doc"), "got": a.help}))
+            # the described interface: required iff there is no default and the type is not Optional
+            want_req = ("default" not in p) and not p["typ"].startswith("Optional[")
+            if a.required != want_req:
+                items.append(("C04/%s/required/%s/%s/want-%s" % (tag, "Optional" if p["typ"].startswith("Optional[") else th,
+                                                               "default" if "default" in p else "nodefault", want_req),
+                              {"param": name, "typ": p["typ"], "has_default": "default" in p, "required": a.required}))
+            if want_req:
+                all_optional_or_defaultless = False
+        if all_optional_or_defaultless:
+            try:
+                with contextlib.redirect_stderr(io.StringIO()):
+                    got = vars(ap.parse_args([]))
+                want = {k: (None if described_default(p) is T._ABSENT else described_default(p)) for k, p in ir["params"].items()}
+                if got != want:
+                    items.append(("C04/%s/parse_args-defaults" % tag, {"got": repr(got), "want": repr(want)}))
+            except SystemExit:
+                items.append(("C04/%s/parse_args-exits-although-every-option-has-a-default" % tag, {"params": T.jsonable(ir)["params"]}))
+
     for style in STYLES:
         for edd in (False, True):
+            fresh = {}
             # ---- class
             for fmt, em in (("class", cdd.class_.emit.class_), ("pydantic", cdd.pydantic.emit.pydantic)):
                 tag = "%s/%s" % (fmt, style)
                 try:
-                    with contextlib.redirect_stderr(io.StringIO()):
-                        node = em(copy.deepcopy(ir), docstring_format=style, emit_default_doc=edd)
-                    src = to_code(node)
+                    src = emit(em, copy.deepcopy(ir), docstring_format=style, emit_default_doc=edd)
                 except Exception as e:  # noqa
                     items.append(("C04/%s/emit-raises/%s" % (tag, type(e).__name__), {"error": str(e)[:100]}))
                     continue
-                tree = ast.parse(src)
-                if ast.dump(ast.parse(ast.unparse(tree))) != ast.dump(tree):
-                    items.append(("C04/%s/unparse-reparse" % tag, {"source": src[:200]}))
-                if fmt == "pydantic":
-                    src_x = src.replace("(BaseModel)", "(object)")   # pydantic-shaped class; BaseModel itself is third-party
-                else:
-                    src_x = src
-                ns = dict(base_ns)
-                try:
-                    exec(compile(src_x, "<emitted %s>" % fmt, "exec"), ns)
-                    nexec += 1
-                except Exception as e:  # noqa
-                    items.append(("C04/%s/does-not-run/%s" % (tag, type(e).__name__), {"error": str(e)[:100], "source": src[:300]}))
-                    continue
-                cls = ns.get("Thing") or next((v for k, v in ns.items() if inspect.isclass(v) and v.__module__ == "builtins" and k not in base_ns), None)
-                if cls is None:
-                    items.append(("C04/%s/class-not-defined" % tag, {"source": src[:200]}))
-                    continue
-                anns = getattr(cls, "__annotations__", {})
-                for name, p in ir["params"].items():
-                    want = described_default(p)
-                    if want is T._ABSENT:
-                        if hasattr(cls, name):
-                            got = getattr(cls, name)
-                            items.append(("C04/%s/attr-default-invented/%s->%s" % (tag, typ_head(p["typ"]), T.kind_of_default(got)),
-                                          {"param": name, "typ": p["typ"], "got": repr(got)}))
-                    else:
-                        if not hasattr(cls, name):
-                            items.append(("C04/%s/attr-default-missing/%s" % (tag, T.kind_of_default(p["default"])),
-                                          {"param": name, "typ": p["typ"], "default": repr(want)}))
-                        elif getattr(cls, name) != want or type(getattr(cls, name)) != type(want):
-                            items.append(("C04/%s/attr-default-differs/%s->%s" % (tag, T.kind_of_default(p["default"]),
-                                                                                  T.kind_of_default(getattr(cls, name))),
-                                          {"param": name, "typ": p["typ"], "default": repr(want), "got": repr(getattr(cls, name))}))
-                    if name in anns:
-                        if eval_typ(p["typ"], dict(base_ns)) != anns[name]:
-                            items.append(("C04/%s/annotation-differs/%s" % (tag, typ_head(p["typ"])),
-                                          {"param": name, "typ": p["typ"], "got": repr(anns[name])}))
-                    else:
-                        items.append(("C04/%s/annotation-missing/%s" % (tag, typ_head(p["typ"])), {"param": name, "typ": p["typ"]}))
+                fresh[fmt] = src
+                obs_class(src, fmt, tag)
             # ---- function
             for kwonly in (True, False):
                 tag = "function%s/%s" % ("" if kwonly else "-pos", style)
                 try:
-                    with contextlib.redirect_stderr(io.StringIO()):
-                        node = cdd.function.emit.function(copy.deepcopy(ir), function_name="thing", function_type="static",
-                                                          docstring_format=style, emit_default_doc=edd, emit_as_kwonlyargs=kwonly)
-                    src = to_code(node)
-                    ns = dict(base_ns)
-                    exec(compile(src, "<emitted function>", "exec"), ns)
-                    nexec += 1
+                    src = emit(cdd.function.emit.function, copy.deepcopy(ir), function_name="thing", function_type="static",
+                               docstring_format=style, emit_default_doc=edd, emit_as_kwonlyargs=kwonly)
                 except Exception as e:  # noqa
                     items.append(("C04/%s/does-not-run/%s" % (tag, type(e).__name__), {"error": str(e)[:100]}))
                     continue
-                sig = inspect.signature(ns["thing"])
-                got = [(k, v.default) for k, v in sig.parameters.items()]
-                want = [(k, (None if described_default(p) is T._ABSENT else described_default(p))) for k, p in ir["params"].items()
-                        if not k.endswith("kwargs")]
-                if [g[0] for g in got] != [w[0] for w in want]:
-                    items.append(("C04/%s/signature-names" % tag, {"got": [g[0] for g in got], "want": [w[0] for w in want]}))
-                else:
-                    for (k, g), (_k, w_) in zip(got, want):
-                        if g != w_ or type(g) != type(w_):
-                            items.append(("C04/%s/signature-default/%s->%s" % (tag, T.kind_of_default(w_), T.kind_of_default(g)),
-                                          {"param": k, "want": repr(w_), "got": repr(g)}))
-                kinds = {v.kind for v in sig.parameters.values()}
-                if kwonly and kinds - {inspect.Parameter.KEYWORD_ONLY}:
-                    items.append(("C04/%s/not-keyword-only" % tag, {"kinds": [str(k) for k in kinds]}))
+                if kwonly:
+                    fresh["function"] = src
+                obs_function(src, tag, kwonly)
             # ---- argparse
             tag = "argparse/%s" % style
             try:
-                with contextlib.redirect_stderr(io.StringIO()):
-                    node = cdd.argparse_function.emit.argparse_function(copy.deepcopy(ir), docstring_format=style, emit_default_doc=edd)
-                src = to_code(node)
-                ns = dict(base_ns)
-                exec(compile(src, "<emitted argparse>", "exec"), ns)
-                ap = argparse.ArgumentParser(prog="x")
-                ns["set_cli_args"](ap)
-                nexec += 1
+                src = emit(cdd.argparse_function.emit.argparse_function, copy.deepcopy(ir), docstring_format=style, emit_default_doc=edd)
             except BaseException as e:  # noqa
                 items.append(("C04/%s/does-not-run/%s" % (tag, type(e).__name__), {"error": str(e)[:100]}))
-                continue
-            acts = {a.dest: a for a in ap._actions if a.dest != "help"}
-            if sorted(acts) != sorted(ir["params"]):
-                items.append(("C04/%s/options-differ" % tag, {"got": sorted(acts), "want": sorted(ir["params"])}))
-                continue
-            all_optional_or_defaultless = True
-            for name, p in ir["params"].items():
-                a = acts[name]
-                th = typ_head(p["typ"])
-                inner = p["typ"][9:-1] if p["typ"].startswith("Optional[") else p["typ"]
-                if inner.startswith("Literal["):
-                    members = list(ast.literal_eval("(" + inner[len("Literal["):-1] + ",)"))
-                    if a.choices is None or list(a.choices) != members:
-                        items.append(("C04/%s/choices" % tag, {"param": name, "typ": p["typ"], "got": repr(a.choices)}))
-                want_d = described_default(p)
-                want_d = None if want_d is T._ABSENT else want_d
-                if a.default != want_d or type(a.default) != type(want_d):
-                    items.append(("C04/%s/default/%s->%s" % (tag, T.kind_of_default(want_d), T.kind_of_default(a.default)),
-                                  {"param": name, "typ": p["typ"], "want": repr(want_d), "got": repr(a.default)}))
-                conv = {"int": int, "float": float, "bool": bool, "str": None}.get(inner, "?")
-                if conv != "?" and a.type is not conv and not (conv is None and a.type is str):
-                    items.append(("C04/%s/type/%s" % (tag, th), {"param": name, "typ": p["typ"], "got": repr(a.type)}))
-                if (a.help or "") and T.norm_doc(a.help, edd) != T.norm_doc(p.get("doc"), edd):
-                    items.append(("C04/%s/help" % tag, {"param": name, "want": p.get("doc"), "got": a.help}))
-                # the described interface: required iff there is no default and the type is not Optional
-                want_req = ("default" not in p) and not p["typ"].startswith("Optional[")
-                if a.required != want_req:
-                    items.append(("C04/%s/required/%s/%s/want-%s" % (tag, "Optional" if p["typ"].startswith("Optional[") else th,
-                                                                   "default" if "default" in p else "nodefault", want_req),
-                                  {"param": name, "typ": p["typ"], "has_default": "default" in p, "required": a.required}))
-                if want_req:
-                    all_optional_or_defaultless = False
-            if all_optional_or_defaultless:
+                src = None
+            if src is not None:
+                fresh["argparse"] = src
+                obs_argparse(src, tag, edd)
+            # ---- ONE description handed to the argparse, class and function emitters in turn (what `cdd sync` does with the truth's
+            # description): the program each of them writes is held to the same property; it is re-examined when it is not the text
+            # written from a fresh copy
+            shared = copy.deepcopy(ir)
+            for fmt, call in (("argparse", lambda d: emit(cdd.argparse_function.emit.argparse_function, d, docstring_format=style, emit_default_doc=edd)),
+                              ("class", lambda d: emit(cdd.class_.emit.class_, d, docstring_format=style, emit_default_doc=edd)),
+                              ("function", lambda d: emit(cdd.function.emit.function, d, function_name="thing", function_type="static",
+                                                          docstring_format=style, emit_default_doc=edd, emit_as_kwonlyargs=True))):
+                if fmt not in fresh:
+                    break
+                tag = "%s/%s/description-already-read-by-another-emitter" % (fmt, style)
                 try:
-                    with contextlib.redirect_stderr(io.StringIO()):
-                        got = vars(ap.parse_args([]))
-                    want = {k: (None if described_default(p) is T._ABSENT else described_default(p)) for k, p in ir["params"].items()}
-                    if got != want:
-                        items.append(("C04/%s/parse_args-defaults" % tag, {"got": repr(got), "want": repr(want)}))
-                except SystemExit:
-                    items.append(("C04/%s/parse_args-exits-although-every-option-has-a-default" % tag, {"params": T.jsonable(ir)["params"]}))
-    return items, nexec
+                    src = call(shared)
+                except BaseException as e:  # noqa
+                    items.append(("C04/%s/emit-raises/%s" % (tag, type(e).__name__), {"error": str(e)[:100]}))
+                    break
+                if src != fresh[fmt]:
+                    if fmt == "argparse":
+                        obs_argparse(src, tag, edd)
+                    elif fmt == "class":
+                        obs_class(src, fmt, tag)
+                    else:
+                        obs_function(src, tag, True)
+    return items, nexec[0]
 
 
 def typ_head(t):
